@@ -410,7 +410,7 @@ type recEntry struct {
 	op    optimize.Operation
 	stats optimize.Stats
 	f     float64
-	x, g  []float64 // copies, kept for InitIteration and MajorIteration records
+	x, g  []float64 // copies, kept for InitIteration and MajorIteration records (x also for the record that follows one)
 }
 
 type recorder struct {
@@ -443,6 +443,9 @@ func (r *recorder) Record(loc *optimize.Location, op optimize.Operation, st *opt
 		if loc.Gradient != nil {
 			e.g = append([]float64(nil), loc.Gradient...)
 		}
+	} else if n := len(r.entries); n > 0 && n < 400 && r.entries[n-1].x != nil && (r.entries[n-1].op == optimize.InitIteration || r.entries[n-1].op == optimize.MajorIteration) {
+		// the first trial point of a line search
+		e.x = append([]float64(nil), loc.X...)
 	}
 	r.entries = append(r.entries, e)
 	r.inRecord = false
@@ -510,6 +513,7 @@ type minInst struct {
 	isolated   int  // 0 no; 1 FuncEvaluations only; 2 MajorIterations only; 3 Runtime only; 4 no limit at all: default settings on a convex quadratic
 	nilSet     bool // isolated == 4: pass settings == nil
 	lsKnob     int  // explicit Linesearcher parameters (0 = zero value)
+	stepKnob   int  // StepSizer of GradientDescent / CG (0 = nil)
 	nmVerts    bool // NelderMead: the initial simplex (initX first) and its values are supplied
 	cmaStop    int  // CmaEsChol.StopLogDet: 0 NaN (criterion off), 1 default, 2 +Inf (converged after the first generation)
 	costly     bool
@@ -593,6 +597,9 @@ func drawMinimize(t *simrt.Tape) *minInst {
 		in.ls = t.Choose(simrt.KWorkload, 4)
 		if in.ls != 0 {
 			in.lsKnob = t.Choose(simrt.KWorkload, 3)
+		}
+		if in.method <= mCGHZ {
+			in.stepKnob = t.Choose(simrt.KWorkload, 6)
 		}
 	}
 	defaults := usesLS(in.method) && t.Choose(simrt.KWorkload, 8) == 7
@@ -750,6 +757,7 @@ func (in *minInst) describe(m map[string]interface{}) {
 	m["dim"] = in.dim
 	m["method_knobs"] = in.knob
 	m["linesearcher_knobs"] = in.lsKnob
+	m["step_sizer"] = stepSizerNames[in.stepKnob]
 	if in.nilMethod {
 		m["method"] = "nil (default: " + methodNames[in.method] + ")"
 	}
@@ -832,19 +840,32 @@ func (in *minInst) build() *minRun {
 	}
 	// tuning knobs: correctness must not depend on one configuration
 	gst := []float64{0, 1e-4, 0, math.NaN()}[in.knob]
+	var ss optimize.StepSizer
+	switch in.stepKnob {
+	case 1:
+		ss = optimize.ConstantStepSize{Size: 0.25}
+	case 2:
+		ss = &optimize.QuadraticStepSize{InitialStepFactor: 0.5, MinStepSize: 1.0 / 64, MaxStepSize: 4}
+	case 3:
+		ss = &optimize.FirstOrderStepSize{InitialStepFactor: 2, MinStepSize: 1.0 / 32, MaxStepSize: 2}
+	case 4:
+		ss = &optimize.QuadraticStepSize{}
+	case 5:
+		ss = &optimize.FirstOrderStepSize{}
+	}
 	switch in.method {
 	case mGD:
-		r.method = &optimize.GradientDescent{Linesearcher: ls, GradStopThreshold: gst}
+		r.method = &optimize.GradientDescent{Linesearcher: ls, StepSizer: ss, GradStopThreshold: gst}
 	case mCGFR:
-		r.method = &optimize.CG{Linesearcher: ls, Variant: &optimize.FletcherReeves{}, GradStopThreshold: gst, IterationRestartFactor: float64(2 * (in.knob / 2))}
+		r.method = &optimize.CG{Linesearcher: ls, InitialStep: ss, Variant: &optimize.FletcherReeves{}, GradStopThreshold: gst, IterationRestartFactor: float64(2 * (in.knob / 2))}
 	case mCGPRP:
-		r.method = &optimize.CG{Linesearcher: ls, Variant: &optimize.PolakRibierePolyak{}, GradStopThreshold: gst, IterationRestartFactor: float64(2 * (in.knob / 2))}
+		r.method = &optimize.CG{Linesearcher: ls, InitialStep: ss, Variant: &optimize.PolakRibierePolyak{}, GradStopThreshold: gst, IterationRestartFactor: float64(2 * (in.knob / 2))}
 	case mCGHS:
-		r.method = &optimize.CG{Linesearcher: ls, Variant: &optimize.HestenesStiefel{}, GradStopThreshold: gst}
+		r.method = &optimize.CG{Linesearcher: ls, InitialStep: ss, Variant: &optimize.HestenesStiefel{}, GradStopThreshold: gst}
 	case mCGDY:
-		r.method = &optimize.CG{Linesearcher: ls, Variant: &optimize.DaiYuan{}, GradStopThreshold: gst}
+		r.method = &optimize.CG{Linesearcher: ls, InitialStep: ss, Variant: &optimize.DaiYuan{}, GradStopThreshold: gst}
 	case mCGHZ:
-		r.method = &optimize.CG{Linesearcher: ls, Variant: &optimize.HagerZhang{}, GradStopThreshold: gst}
+		r.method = &optimize.CG{Linesearcher: ls, InitialStep: ss, Variant: &optimize.HagerZhang{}, GradStopThreshold: gst}
 	case mBFGS:
 		r.method = &optimize.BFGS{Linesearcher: ls, GradStopThreshold: gst}
 	case mLBFGS:
@@ -1758,6 +1779,9 @@ func checkC19(rc *RunCtx, in *minInst, r *minRun, nTasks int) *Violation {
 	// Oracle 7: every step a line-search method announces satisfies the
 	// conditions its Linesearcher advertises, judged on the recorded history
 	// of MajorIterations (see checkLinesearchSteps).
+	if v := checkInitialSteps(rc, in, r); v != nil {
+		return v
+	}
 	if v := checkLinesearchSteps(rc, in, r); v != nil {
 		return v
 	}
@@ -1778,6 +1802,119 @@ func checkC19(rc *RunCtx, in *minInst, r *minRun, nTasks int) *Violation {
 // most about one ulp of each x per coordinate; the comparison allows for it,
 // which makes the check vacuous for steps at rounding level and exact
 // otherwise.
+var stepSizerNames = []string{"nil (the method's default)", "ConstantStepSize{0.25}", "QuadraticStepSize{InitialStepFactor 0.5, Min 1/64, Max 4}", "FirstOrderStepSize{InitialStepFactor 2, Min 1/32, Max 2}", "QuadraticStepSize{}", "FirstOrderStepSize{}"}
+
+// checkInitialSteps: the first trial point of every line search of
+// GradientDescent (direction -g, so the step is |x_trial - x_k| / |g_k|) lies
+// at the step its StepSizer advertises: ConstantStepSize "returns the same step
+// size for every iteration"; QuadraticStepSize and FirstOrderStepSize start at
+// InitialStepFactor/|g|_inf and keep every estimate within [MinStepSize,
+// MaxStepSize]; FirstOrderStepSize chooses s_k with s_k g_k.p_k = s_{k-1}
+// g_{k-1}.p_{k-1} inside those bounds. For CG only the first line search has a
+// known direction.
+func checkInitialSteps(rc *RunCtx, in *minInst, r *minRun) *Violation {
+	if r.rec == nil || in.method > mCGHZ || in.nilMethod || in.obj.bad != 0 || r.method == nil {
+		return nil
+	}
+	var ss optimize.StepSizer
+	switch m := r.method.(type) {
+	case *optimize.GradientDescent:
+		ss = m.StepSizer
+	case *optimize.CG:
+		ss = m.InitialStep
+	}
+	kind, init, lo, hi, size := "", 1.0, 1e-3, 1.0, 0.0
+	or := func(v, d float64) float64 {
+		if v == 0 {
+			return d
+		}
+		return v
+	}
+	switch z := ss.(type) {
+	case optimize.ConstantStepSize:
+		kind, size = "Constant", z.Size
+	case *optimize.QuadraticStepSize:
+		kind, init, lo, hi = "Quadratic", or(z.InitialStepFactor, 1), or(z.MinStepSize, 1e-3), or(z.MaxStepSize, 1)
+	case *optimize.FirstOrderStepSize:
+		kind, init, lo, hi = "FirstOrder", or(z.InitialStepFactor, 1), or(z.MinStepSize, 1e-3), or(z.MaxStepSize, 1)
+	default:
+		return nil
+	}
+	clamp := func(v float64) float64 { return math.Max(lo, math.Min(v, hi)) }
+	norm2 := func(v []float64) float64 {
+		var s float64
+		for _, x := range v {
+			s += x * x
+		}
+		return math.Sqrt(s)
+	}
+	dist := func(a, b []float64) float64 {
+		var s float64
+		for i := range a {
+			s += (a[i] - b[i]) * (a[i] - b[i])
+		}
+		return math.Sqrt(s)
+	}
+	rc.oracle("initial-step-as-advertised")
+	var prevMajor *recEntry
+	lines := 0
+	for i := 0; i+1 < len(r.rec.entries); i++ {
+		e, nx := &r.rec.entries[i], &r.rec.entries[i+1]
+		if e.op != optimize.MajorIteration {
+			continue
+		}
+		if e.x == nil || len(e.g) == 0 || nx.x == nil || nx.op&(optimize.FuncEvaluation|optimize.GradEvaluation|optimize.HessEvaluation) == 0 || nx.op&^(optimize.FuncEvaluation|optimize.GradEvaluation|optimize.HessEvaluation) != 0 {
+			prevMajor = nil
+			continue
+		}
+		lines++
+		if in.method != mGD && lines > 1 {
+			break
+		}
+		gn := norm2(e.g)
+		step := dist(nx.x, e.x) / gn
+		if gn == 0 || math.IsNaN(step) || math.IsInf(step, 0) {
+			prevMajor = nil
+			continue
+		}
+		// rounding of x + step*d: a few ulps of the coordinates, relative to the displacement
+		var xmax float64
+		for _, v := range e.x {
+			xmax = math.Max(xmax, math.Abs(v))
+		}
+		tol := 1e-9*step + 64*2.220446049250313e-16*(xmax+step*gn)*math.Sqrt(float64(len(e.x)))/gn
+		where := fmt.Sprintf("%s with %s: line search %d (after major iteration %d) starts at step %v", methodNames[in.method], stepSizerNames[in.stepKnob], lines, e.stats.MajorIterations, step)
+		var want float64
+		switch {
+		case kind == "Constant":
+			want = size
+		case lines == 1:
+			var ginf float64
+			for _, v := range e.g {
+				ginf = math.Max(ginf, math.Abs(v))
+			}
+			want = clamp(init / ginf)
+		case kind == "FirstOrder" && prevMajor != nil:
+			// s_k = s_{k-1} |g_{k-1}|^2 / |g_k|^2 for p = -g
+			gp := norm2(prevMajor.g)
+			sPrev := dist(e.x, prevMajor.x) / gp
+			want = clamp(sPrev * gp * gp / (gn * gn))
+			tol += 1e-6 * want
+		default:
+			if step < lo-tol || step > hi+tol {
+				return &Violation{"C19", "minimize/initial-step/out-of-bounds/" + kind, fmt.Sprintf("%s, outside [MinStepSize, MaxStepSize] = [%v, %v]", where, lo, hi)}
+			}
+			prevMajor = e
+			continue
+		}
+		if math.Abs(step-want) > tol {
+			return &Violation{"C19", "minimize/initial-step/not-as-documented/" + kind, fmt.Sprintf("%s; the step sizer's documentation gives %v", where, want)}
+		}
+		prevMajor = e
+	}
+	return nil
+}
+
 func checkLinesearchSteps(rc *RunCtx, in *minInst, r *minRun) *Violation {
 	if r.rec == nil || !usesLS(in.method) || in.nilMethod || in.obj.bad != 0 || r.method == nil {
 		return nil
